@@ -9,6 +9,7 @@ CONSTANTS
   InitSeq <- I_Pos
   InitPatterns <- IP_Many
   SolidInits <- SI_None
+  GuessShifts = {1}
   GridProblems <- NoProblems
   GridStates <- NoStates
   MaxChain = 0
